@@ -1,4 +1,5 @@
 import DFV.Model.Field
+import DFV.Model.C02
 /-!
 C15 model: `Field.norm` (getter and setter), `Field.orientation`, the part of
 `Field.__init__` that fixes the order values → norm → validity, `update_field_values`
@@ -194,6 +195,48 @@ def flattenC : List (K × K) → List K
 
 end CKernel
 
+/-! ## The complex kernel as NumPy computes it (one rounding `fl` after every operation)
+
+`np.linalg.norm` forms `(x.conj() * x).real` per component — with a fused multiply-add in
+NumPy's SIMD loop on machines that have one (`fused`: `fl(re² + fl(im²))`), otherwise
+`fl(fl(re²) + fl(im²))` — and adds the components left to right.  The division of a complex
+number by the real norm `n + 0j` is Smith's algorithm with ratio `0/n = 0`: the reciprocal
+`scl = fl(1/n)` is rounded, then real and imaginary part are multiplied by it (**two**
+roundings where a real array needs one).  The product with the real target `t + 0j` rounds
+each part once (`fl(fl(re·t) − im·0)`). -/
+section CFlKernel
+variable {K : Type}
+
+/-- `(conj(z)·z).real` as computed -/
+def cflAbs2 [Add K] [Mul K] (fl : K → K) (fused : Bool) (z : K × K) : K :=
+  if fused then fl (z.1 * z.1 + fl (z.2 * z.2)) else fl (fl (z.1 * z.1) + fl (z.2 * z.2))
+
+/-- `add.reduce((x.conj() * x).real, axis=-1)` of one complex cell -/
+def cflSqLen [Zero K] [Add K] [Mul K] (fl : K → K) (fused : Bool) (v : List (K × K)) : K :=
+  v.foldl (fun acc z => fl (acc + cflAbs2 fl fused z)) 0
+
+def cflNormCell [Zero K] [Add K] [Mul K] (fl sqrt : K → K) (fused : Bool) (v : List (K × K)) : K :=
+  fl (sqrt (cflSqLen fl fused v))
+
+/-- every component divided by the real number `n` the way NumPy divides a complex by
+`n + 0j`: times the rounded reciprocal -/
+def cflDivCell [One K] [Mul K] [Div K] (fl : K → K) (v : List (K × K)) (n : K) : List (K × K) :=
+  v.map fun z => (fl (z.1 * fl (1 / n)), fl (z.2 * fl (1 / n)))
+
+/-- one cell of the norm setter on a complex array as computed -/
+def cflSetCell [Zero K] [One K] [Add K] [Mul K] [Div K] [DecidableEq K] (fl sqrt : K → K)
+    (fused : Bool) (v : List (K × K)) (t : K) : List (K × K) :=
+  (if cflNormCell fl sqrt fused v = 0 then v.map fun _ => ((0 : K), (0 : K))
+   else cflDivCell fl v (cflNormCell fl sqrt fused v)).map fun z => (fl (z.1 * t), fl (z.2 * t))
+
+/-- one cell of `Field.orientation` on a complex array as computed -/
+def cflOrientCell [Zero K] [One K] [Add K] [Mul K] [Div K] [Neg K] [LT K] [LE K] [DecidableLT K]
+    [DecidableLE K] (fl sqrt : K → K) (fused : Bool) (atol : K) (v : List (K × K)) : List (K × K) :=
+  if closeZero atol (cflNormCell fl sqrt fused v) then v.map fun _ => ((0 : K), (0 : K))
+  else cflDivCell fl v (cflNormCell fl sqrt fused v)
+
+end CFlKernel
+
 /-! ## An executable square root on `Rat` (driver instantiation of the parameter)
 
 Exact on rational squares (so on every vector with rational length, e.g. scaled
@@ -212,12 +255,16 @@ def atolDefault : Rat := 1 / 100000000
 
 /-! ## Specifications accepted by the setters -/
 
-/-- what may be assigned to `field.norm` (or passed as `norm=`): number, array-like, callable -/
+/-- what may be assigned to `field.norm` (or passed as `norm=`): number, array-like, callable,
+one-component field — and (`spec`) anything `Field._as_array` takes, in particular a
+**dictionary over the mesh's subregions** (with or without `"default"`), through C02's model of
+`_as_array` for one component -/
 inductive NSpec where
   | const (c : Rat)
   | arr (a : NDA Rat)
   | fn (g : List Rat → Rat)
   | field (h : Fld)
+  | spec (s : C02.Spec Rat)
 
 /-- NumPy broadcasting of shape `s` to shape `t` (right-aligned; a source axis is 1 or equal) -/
 def bcastOk (s t : List Nat) : Bool :=
@@ -265,6 +312,12 @@ def asArray1 (m : Mesh) : NSpec → M (NDA Rat)
   | .arr a => bcastArr m a
   | .fn g => .ok ⟨m.n, fun i => g (m.centre i)⟩
   | .field h => fieldAsArray1 m h
+  | .spec s =>
+    -- `_as_array(val, mesh, nvdim=1, dtype=None)` as modelled for C02 (the only test on a value is `val != 0`);
+    -- the result has shape `(*mesh.n, 1)`, cell `i` is entry `i ++ [0]`
+    match C02.asArray (fun v => v == 0) s m 1 with
+    | .error e => .error e
+    | .ok a => .ok ⟨m.n, fun i => a.get (i ++ [0])⟩
 
 /-- value specifications of `update_field_values` used here (the full set is C02's) -/
 inductive VSpec where
@@ -319,11 +372,20 @@ def setNorm (sqrt : Rat → Rat) (f : Fld) : Option NSpec → M Fld
     | .error e => .error e
     | .ok t => .ok { f with data := ⟨f.mesh.n, fun i => setCell sqrt (f.data.get i) (t.get i)⟩ }
 
+/-- the labels `Field.orientation` ends with: it passes `vdims=self.vdims` to the constructor, so a
+field **without** labels (`vdims` is `None`) gets the constructor's defaults again -/
+def orientVdims (f : Fld) : Option (List String) :=
+  match f.vdims with
+  | none => Fld.defaultVdims f.nvdim
+  | some l => some l
+
 /-- `Field.orientation`: unit vectors where the norm is not close to zero, zero elsewhere;
-keeps mesh, labels, mapping and validity, drops the unit -/
+keeps mesh, labels (see `orientVdims`), mapping and validity, drops the unit.  This is the
+result of the constructor call the getter ends with whenever that call is accepted
+(`orientation?`, `orientation_is_ctor_call` in Props). -/
 def orientation (sqrt : Rat → Rat) (atol : Rat) (f : Fld) : Fld :=
   { f with data := ⟨f.mesh.n, fun i => orientCell sqrt atol (f.data.get i)⟩,
-           valid := ⟨f.mesh.n, f.valid.get⟩, unit := none }
+           valid := ⟨f.mesh.n, f.valid.get⟩, vdims := orientVdims f, unit := none }
 
 /-- `Field.valid = spec` (setter): `"norm"` masks the cells whose norm is close to zero -/
 def validOf (sqrt : Rat → Rat) (atol : Rat) (f : Fld) : ValidSpec → M (NDA Bool)
@@ -368,6 +430,70 @@ def mk? (sqrt : Rat → Rat) (atol : Rat) (m : Mesh) (nvdim : Nat) (value : VSpe
         | .error e => .error e
         | .ok f2 => .ok { f2 with vdims := Fld.defaultVdims nvdim,
                                   vmap := defaultVmap nvdim m.region.dims }
+
+/-! ## The constructor with labels and mapping; `Field.orientation` as that constructor call -/
+
+/-- the `vdims` setter on a fresh object (`None`: defaults; `[]`: no labels; else as many distinct
+labels as components; labels that clash with attribute names are outside the model) -/
+def vdimsSet (nvdim : Nat) : Option (List String) → M (Option (List String))
+  | none => .ok (Fld.defaultVdims nvdim)
+  | some [] => .ok none
+  | some (l :: ls) =>
+    if (l :: ls).length ≠ nvdim then .error .value
+    else if hasDup (l :: ls) then .error .value
+    else .ok (some (l :: ls))
+
+/-- `sorted(keys) == sorted(vdims)` for duplicate-free lists -/
+def sameKeys (ks vs : List String) : Bool :=
+  decide (ks.length = vs.length) && ks.all (fun k => vs.contains k) && vs.all (fun v => ks.contains v)
+
+/-- the `vdim_mapping` setter (`none` = argument `None`; the values are axis names) -/
+def vmapSet (nvdim : Nat) (vdims : Option (List String)) (dims : List String) :
+    Option (List (String × String)) → M (List (String × String))
+  | none =>
+    .ok (if nvdim = 1 then []
+         else if nvdim = dims.length then
+           match vdims with
+           | some vs => vs.zip dims
+           | none => []
+         else [])
+  | some mp =>
+    if mp.length = 1 ∧ nvdim = 1 ∧ vdims = none then .ok []
+    else if 0 < mp.length then
+      match vdims with
+      | none => .error .type           -- `sorted(None)`
+      | some vd => if sameKeys (mp.map (·.1)) vd then .ok mp else .error .value
+    else .ok mp
+
+/-- `Field.__init__` with `vdims=` and `vdim_mapping=`: `nvdim` check; `valid = True`; values;
+then norm; then validity; then the labels; then the mapping -/
+def mkFull? (sqrt : Rat → Rat) (atol : Rat) (m : Mesh) (nvdim : Nat) (value : VSpec)
+    (nrm : Option NSpec) (valid : ValidSpec) (vdims : Option (List String))
+    (vmap : Option (List (String × String))) (unit : Option String) : M Fld :=
+  if nvdim < 1 then .error .value
+  else
+    match updateValues { mesh := m, nvdim := nvdim, data := ⟨m.n, fun _ => []⟩,
+                          valid := ⟨m.n, fun _ => true⟩, vdims := none, vmap := [], unit := unit } value with
+    | .error e => .error e
+    | .ok f0 =>
+      match setNorm sqrt f0 nrm with
+      | .error e => .error e
+      | .ok f1 =>
+        match setValid sqrt atol f1 valid with
+        | .error e => .error e
+        | .ok f2 =>
+          match vdimsSet nvdim vdims with
+          | .error e => .error e
+          | .ok vd =>
+            match vmapSet nvdim vd m.region.dims vmap with
+            | .error e => .error e
+            | .ok vm => .ok { f2 with vdims := vd, vmap := vm }
+
+/-- `Field.orientation` as the code writes it: `Field(mesh, nvdim=self.nvdim,
+value=orientation_array, vdims=self.vdims, valid=self.valid, vdim_mapping=self.vdim_mapping)` -/
+def orientation? (sqrt : Rat → Rat) (atol : Rat) (f : Fld) : M Fld :=
+  mkFull? sqrt atol f.mesh f.nvdim (.arr ⟨f.mesh.n, fun i => orientCell sqrt atol (f.data.get i)⟩) none
+    (.arr f.valid) f.vdims (some f.vmap) none
 
 /-! ## Histories: what a program may do to a live field -/
 
